@@ -403,7 +403,12 @@ func (dec *xmlReader) DateTime(tag int) (time.Time, error) {
 	if err != nil {
 		return time.Time{}, err
 	}
-	return dt.Local(), dec.Next()
+	dt = dt.Local()
+	if dt.Year() > 9999 {
+		// A zone offset can put the instant beyond year 9999: such a date cannot be written back in RFC 3339
+		return time.Time{}, Errorf("date-time is out of range")
+	}
+	return dt, dec.Next()
 }
 
 func (dec *xmlReader) Interval(tag int) (time.Duration, error) {
